@@ -12,5 +12,22 @@ claim('C03', 'static analysis: typestate path walk of the send path, registry x 
       NOTE + 'Assumes asyncio run-to-completion between awaits; Controller.link non-None is re-proved from the assignment census on every run.',
       'DESIGN.md §3 C03')
 
-for pid in ['C01', 'C02', 'C04', 'C05', 'C06', 'C07', 'C08', 'C09', 'C10', 'C11', 'C12', 'C13', 'C14', 'C15', 'C16', 'C17', 'C18', 'C19', 'C20']:
+claim('C04', 'static analysis: guard dominance and per-iteration effect counting in the send loop, must-call-before-exit (pump) path rule, producer/consumer end census over every deque attribute',
+      'Decided: every hand-over in DataPacketQueue._check_queue is dominated by `_in_flight < max_in_flight` and pairs one pop, one send of that packet and one increment of each counter; every queue method that frees credits or adds packets reaches _check_queue() on all normal exits (no stall, incl. flush); all 8 deque attributes in bumble/ are consumed from the end opposite to the producer (FIFO); the drained event is set where a connection\'s in-flight count reaches 0 or its state is discarded; the flow-control pipe writes each dequeued packet once with matching byte accounting; completion/disconnection events are wired to the queue. '
+      'Not decided: accounting over whole histories with over-reported completions.',
+      NOTE, 'DESIGN.md §3 C04')
+claim('C07', 'static analysis: guard dominance + per-iteration effect counting (credits), slice-bound extraction (MPS/MTU), writer/reader agreement of the SDU header, table-key consistency, constructor slot binding',
+      'Decided: every data frame is sent under `credits > 0` and consumes exactly one credit; a frame is out_sdu[:peer_mps], SDU payload chunks are cut to peer_mtu - len(payload), the 2-byte SDU length written is the one on_pdu reads and compares; the receiver returns peer_max_credits - peer_credits for its own source CID at/below the threshold and resets; on_credits adds and resumes; le_coc_channels is keyed by destination CID at all 4 inserts and looked up by the credit packet\'s CID; negotiated mtu/mps/credits flow into the right constructor parameters on both server paths and both client paths and equal what is announced to the peer. '
+      'Not decided: byte-stream equality and progress for all write patterns.',
+      NOTE, 'DESIGN.md §3 C07')
+claim('C08', 'static analysis: bit-layout extraction parse vs serialise, modulus vs field width, single-writer and who-may-call rules for the transmit window, stride/slice agreement, flag-paired FCS accounting',
+      'Decided: I-/S-frame control-field bit layouts agree between from_bytes and __bytes__ with no overlapping serialised fields; MAX_SEQ_NUM == 1 << width(tx_seq) == 1 << width(req_seq), one writer of the transmit sequence number, all sequence arithmetic mod MAX_SEQ_NUM; I-frames are sent only inside an islice bounded by peer_tx_window_size - len(_tx_window) and acknowledgements remove exactly the (bounded) acknowledged prefix; segmentation stride == slice width == peer_mps with SAR derived from offsets and the SDU-length field written/skipped only for START; FCS counted, appended and stripped under the same flag; both OPEN transitions resolve the connection result; mode mismatch aborts and disconnects. '
+      'Not decided: exactly-once in-order delivery, wrap-around behaviour at run time.',
+      NOTE, 'DESIGN.md §3 C08')
+claim('C09', 'static analysis: insert-set vs remove-set per channel class (partial evaluation of on_channel_closed), per-connection table census, failure-path must-remove rule, identifier-keying rule, waiter census with teardown settle analysis, allocator/table agreement',
+      'Decided: for each channel class the tables it is inserted into (extracted from 8 insert sites) are all removed by on_channel_closed on every path and with the key they were stored under; on_disconnection drops every per-connection table and aborts all channels; failed create_* coroutines remove what they registered; every identifier-keyed table access also carries the connection handle; every bare await in l2cap.py is wrapped or settled by its owner\'s teardown on all paths; CID allocators scan the table they insert into and ranges equal the specification; every transition to a closed state is paired with removal. '
+      'Not decided: exactness of tables after arbitrary histories.',
+      NOTE, 'DESIGN.md §3 C09')
+
+for pid in ['C01', 'C02', 'C05', 'C06', 'C10', 'C11', 'C12', 'C13', 'C14', 'C15', 'C16', 'C17', 'C18', 'C19', 'C20']:
     NOT_APPLICABLE[pid] = 'check not built yet in this session (work in progress; see DESIGN.md §3 for the clauses that will be decided statically)'
